@@ -132,13 +132,37 @@ void run_rilist(F make) {
 }
 
 // evaluation-requiring right-hand sides that read the map they are assigned to: the same statement on an owning tensor
-// holding the same values and a plain-loop reference.  N x N, misaligned buffer.
-template<typename T, size_t N>
+// holding the same values and a plain-loop reference.  N x N, misaligned buffer.  MM = false: lazy transposes (statements
+// 0..4), MM = true: lazy products (5, 6) — separate instantiations, so that a tree that rejects one family at compile time
+// is still judged on the other.
+template<bool MM> struct Staged;
+template<> struct Staged<false> {
+    static constexpr int first = 0, last = 5;
+    template<class M_, class O_, class B_> static const char* run(int stmt, M_& m, O_& O, const B_& B) {
+        switch (stmt) {
+            case 0: m = B + trans(m); O = B + trans(O); return "m=B+trans(m)";
+            case 1: m = B - trans(m); O = B - trans(O); return "m=B-trans(m)";
+            case 2: m = m + trans(m); O = O + trans(O); return "m=m+trans(m)";
+            case 3: m += trans(m); O += trans(O); return "m+=trans(m)";
+            default: m = trans(m); O = trans(O); return "m=trans(m)";
+        }
+    }
+};
+template<> struct Staged<true> {
+    static constexpr int first = 5, last = 7;
+    template<class M_, class O_, class B_> static const char* run(int stmt, M_& m, O_& O, const B_& B) {
+        switch (stmt) {
+            case 5: m = B % m; O = B % O; return "m=B%m";
+            default: m = B + B % m; O = B + B % O; return "m=B+B%m";
+        }
+    }
+};
+template<typename T, size_t N, bool MM>
 void run_rstaged(unsigned seed) {
     guarded([&]{
-        std::printf("rstaged cfg=%s T=%s n=%zu seed=%u", CFGNAME, tn<T>::n(), N, seed); std::fflush(stdout);
-        const char* what = nullptr; long pos = -1;
-        for (int stmt = 0; stmt < 7 && !what; ++stmt) {
+        std::printf("rstaged cfg=%s T=%s n=%zu mm=%d seed=%u", CFGNAME, tn<T>::n(), N, (int)MM, seed); std::fflush(stdout);
+        const char* what = nullptr; long pos = -1; const char* who = "";
+        for (int stmt = Staged<MM>::first; stmt < Staged<MM>::last && !what; ++stmt) {
             alignas(64) static unsigned char store[64 * 4 + 1024 * sizeof(T)];
             std::memset(store, 0, sizeof store);
             T* buf = reinterpret_cast<T*>(store + 64 + sizeof(T) * (1 + (seed + stmt) % 7));
@@ -148,7 +172,6 @@ void run_rstaged(unsigned seed) {
             TensorMap<T,N,N> m(buf);
             auto X = [&](size_t i, size_t j) { return x[i * N + j]; };
             auto Bv = [&](size_t i, size_t j) { return b[i * N + j]; };
-            const char* name = "";
             for (size_t i = 0; i < N; ++i) for (size_t j = 0; j < N; ++j) {
                 T mm = 0; for (size_t k = 0; k < N; ++k) mm += Bv(i, k) * X(k, j);
                 T w;
@@ -163,18 +186,13 @@ void run_rstaged(unsigned seed) {
                 }
                 want[i * N + j] = w;
             }
-            switch (stmt) {
-                case 0: name = "m=B+trans(m)"; m = B + trans(m); O = B + trans(O); break;
-                case 1: name = "m=B-trans(m)"; m = B - trans(m); O = B - trans(O); break;
-                case 2: name = "m=m+trans(m)"; m = m + trans(m); O = O + trans(O); break;
-                case 3: name = "m+=trans(m)"; m += trans(m); O += trans(O); break;
-                case 4: name = "m=trans(m)"; m = trans(m); O = trans(O); break;
-                case 5: name = "m=B%m"; m = B % m; O = B % O; break;
-                default: name = "m=B+B%m"; m = B + B % m; O = B + B % O; break;
+            const char* name = Staged<MM>::run(stmt, m, O, B);
+            for (size_t p = 0; p < N * N && !what; ++p) {
+                if (buf[p] != want[p]) { what = name; pos = (long)p; who = "map"; }
+                else if (O.data()[p] != want[p]) { what = name; pos = (long)p; who = "owning"; }
             }
-            for (size_t p = 0; p < N * N && !what; ++p) if (buf[p] != want[p] || O.data()[p] != want[p]) { what = name; pos = (long)p; if (O.data()[p] == want[p]) name = name; }
         }
-        if (!what) std::printf(" | ok\n"); else std::printf(" | FAIL stmt=%s pos=%ld\n", what, pos);
+        if (!what) std::printf(" | ok\n"); else std::printf(" | FAIL stmt=%s through=%s pos=%ld\n", what, who, pos);
     });
 }
 } // namespace c20r
